@@ -5,6 +5,7 @@ import (
 	"context"
 	"encoding/json"
 	"fmt"
+	"github.com/tailscale/setec/audit"
 	"net/http"
 	"net/http/httptest"
 	"os"
@@ -125,7 +126,7 @@ func checkC09(t *testing.T, env *report.Env, rep *report.Report) {
 	alpha := Alphabet([]string{"a", "b"}, []string{"", "x", "y"}, []uint32{1, 2, 3}, false)
 	fs := &failSet{}
 	sec := rep.Add(&report.Section{Name: fmt.Sprintf("conditional-get-all-states-depth%d", depth), Engine: "seqx", Exhaustive: true, Extra: map[string]int64{},
-		Rule:  "every state of the BFS over put/activate/delete histories × name {a,b,zz} × V {0, every number 1..latest+1 (active, other existing, deleted, never-existing), 2^32-1} × caller {with get, without get} through db.GetConditional, the real HTTP handler + setec.Client, and a FileClient built from a Store-written cache; non-trivial = evaluations whose expected answer is not-changed or a value",
+		Rule:  "every state of the BFS over put/activate/delete histories × name {a,b,zz} × V {0, every number 1..latest+1 (active, other existing, deleted, never-existing), 2^32-1} × caller {with get, without get} through db.GetConditional, the real HTTP handler + setec.Client, and a FileClient built from a Store-written cache; the same questions with an audit log that cannot be written (not-changed only for the active version, never a value); non-trivial = evaluations whose expected answer is not-changed or a value",
 		Bound: fmt.Sprintf("depth %d", depth)})
 	states, trans := BFS(alpha, depth, 16, nil, fs.add)
 	sec.States, sec.Transitions = int64(len(states)), trans
@@ -178,6 +179,32 @@ func checkC09(t *testing.T, env *report.Env, rep *report.Report) {
 							}
 							if hx.DumpKey(d) != before {
 								fs.add("get-changed-state", fmt.Sprintf("state %s: conditional get of %s changed the database", s.Key, name), s.Hist)
+							}
+						}
+					}
+				}
+				// (i') the same questions while the audit log cannot be written: "not changed" may still only be
+				// said when V is the active version (that answer needs no record); every other answer fails
+				if db2, err := db.Open(filepath.Join(dir, "db"), KEK, audit.New(brokenSink{})); err == nil {
+					caller := db.Caller{Principal: hx.Super().Principal, Permissions: yes}
+					cl2 := inprocClient(newMux(db2, yes))
+					for _, name := range []string{"a", "b", "zz"} {
+						for _, v := range condVersions(s.Model.S[name]) {
+							want := wantCond(s.Model, name, v, true)
+							for _, via := range []string{"db.GetConditional", "Client.GetIfChanged"} {
+								var got getOut
+								if via == "db.GetConditional" {
+									got = outOf(db2.GetConditional(caller, name, api.SecretVersion(v)))
+								} else {
+									got = outOf(cl2.GetIfChanged(context.Background(), name, api.SecretVersion(v)))
+								}
+								evals++
+								switch {
+								case got.class == model.NotChanged && want.class != model.NotChanged:
+									fs.add("not-changed-without-audit", fmt.Sprintf("state %s, audit log cannot be written: %s(%s,%d) answered not-changed; with a working log the answer is %v", s.Key, via, name, v, want), s.Hist)
+								case got.class == model.OK:
+									fs.add("value-without-audit", fmt.Sprintf("state %s, audit log cannot be written: %s(%s,%d) returned a value", s.Key, via, name, v), s.Hist)
+								}
 							}
 						}
 					}
